@@ -86,9 +86,18 @@ def run_impl_lines(ctx, driver, lines, nprocs=0, env=None, timeout=900, args=(),
     return results, crashed
 
 
-def run_model(ctx, casefile, timeout=900):
+def model_driver(ctx, family, srcs):
+    """build (under the global lock) and remember the extracted driver of another family"""
+    cache = ctx.__dict__.setdefault("_drivers", {})
+    if family not in cache:
+        with Lock():
+            cache[family] = coqtools.build_extracted(family, srcs)
+    return cache[family]
+
+
+def run_model(ctx, casefile, timeout=900, driver=None):
     try:
-        p = subprocess.run([ctx.ocaml, casefile], capture_output=True, text=True, timeout=timeout)
+        p = subprocess.run([driver or ctx.ocaml, casefile], capture_output=True, text=True, timeout=timeout)
     except subprocess.TimeoutExpired:
         return 124, {}, "", "timeout"
     return p.returncode, parse_out(p.stdout), p.stdout, p.stderr
